@@ -176,14 +176,18 @@ func (r *runningRoutine[K, V]) remove() {
 		return
 	}
 
+	// timer is the timer armed by this call: a callback of an earlier timer that
+	// could not be stopped anymore must not act on a removal that was re-armed.
+	var timer *time.Timer
 	timerCb := func() {
 		r.k.mtx.Lock()
-		if r.k.routines[r.key] == r && r.deferRemove != nil {
+		if r.k.routines[r.key] == r && r.deferRemove != nil && r.deferRemove == timer {
 			_ = r.deferRemove.Stop()
 			r.deferRemove = nil
 			removeNow()
 		}
 		r.k.mtx.Unlock()
 	}
-	r.deferRemove = time.AfterFunc(r.k.releaseDelay, timerCb)
+	timer = time.AfterFunc(r.k.releaseDelay, timerCb)
+	r.deferRemove = timer
 }
